@@ -115,6 +115,8 @@ class NotNotMacro(Macro):
 
     def eval(self, args, prevs=None):
         neg_arg, pos_arg = args
+        if not (neg_arg.is_not() and neg_arg.arg.is_not() and neg_arg.arg.arg.is_not()):
+            raise VeriTException("not_not", "unexpected goal: %s" % Or(*args))
         if neg_arg.arg.arg.arg == pos_arg:
             return Thm(Or(neg_arg, pos_arg))
         else:
